@@ -71,7 +71,8 @@ func main() {
 		} else {
 			runScenario(run, int(rc), scenarioSpecs(run, int(rc)))
 		}
-		raceCollect(run, true)
+		raceCollect(run)
+		_ = os.Remove(filepath.Join(ev.Out, "replay", "C20.inflight.json"))
 		// a replay exercises one case only: the coverage obligations of a full run do not apply
 		for _, m := range allMandatory(run) {
 			run.Observed(m)
@@ -84,8 +85,9 @@ func main() {
 	t0 := time.Now()
 	for i := 0; i < nIso; i++ {
 		writeInflight(run, i)
-		// every scenario in a goroutine of its own (a recovered library panic garbles the race detector's shadow
-		// stack of the goroutine it happened in)
+		// every scenario in a goroutine of its own: the race detector's shadow stack of a goroutine accumulates
+		// stale frames over time (every recovered panic leaves some, and with this toolchain so does every handler
+		// call), which makes reports huge; attribution by innermost frames is unaffected, but goroutines are kept short-lived
 		done := make(chan struct{})
 		go func() { defer close(done); runScenario(run, i, scenarioSpecs(run, i)) }()
 		<-done
@@ -100,7 +102,7 @@ func main() {
 		restoreGlobals()
 	}
 	run.Extra("wall_s_concurrent_part", time.Since(t0).Seconds())
-	raceCollect(run, false)
+	raceCollect(run)
 	_ = os.Remove(filepath.Join(ev.Out, "replay", "C20.inflight.json"))
 	fmt.Printf("C20: %d isolation scenarios, %d concurrent rounds\n", nIso, nRounds)
 	run.Finish()
